@@ -3,17 +3,25 @@ import Operon.Model.MitoTools
 import Operon.Gen.MitoCaps
 /-! Line-protocol driver for the tool/capability model (C03).
 
-    cfg <allowed: none | - | c1,c2,..>
-    reg <name> <body> <req: none | - | list> <caps: none | - | list> <raises 0/1>
-    met <mode: long|ros|forced-oxid|forced-other|auto> <callee: name:<n> | notname | notcall> <argsOk 0/1> <recorded: oxid|other>
-    call <name>
-    loop <maxIter> <auto 0/1> <rounds: r1;r2;...  each r = n1,n2 or - for empty>
+    cfg <allowed: none | - | c1,c2,..> [container]
+    setal <allowed> [container]                      -- `engine.allowed_capabilities = …` on the live engine
+    reg <name> <body> <req: none | - | list> <caps: none | - | list> <raises 0/1> [style]
+    unreg <name>
+    redecl <name> <req> <caps>                       -- attributes re-assigned on the live tool object
+    schemas
+    arm <slot> reg <name> <body> <req> <caps> <raises> [style]   -- script slot <slot>: registry operations performed
+    arm <slot> unreg <name>                                      --   each time the slot fires (appended per line)
+    met <mode: long|ros|forced-oxid|forced-other|auto> <callee: name:<n> | notname | notcall>
+        <args: 1 | 0 | n:<name>> <recorded: oxid|other> [@s1,s2]     -- slots fired by the argument expressions
+    call <name> [@s1,s2]                             -- slots fired by evaluating `**call.arguments`
+    loop <maxIter> <auto 0/1> [idmode] <rounds: r1;r2;...  each r = e1,e2 or - ; e = ^slot (provider fires the slot
+        before answering) | name | name@s1@s2>
   observation: result + execution log (body ids) -/
 open Operon Operon.Proto Operon.MitoTools
 
 structure DSt where
-  allowed : Option (List Cap) := none
   st : St := {}
+  slots : List (Nat × List RegOp) := []
 
 def capsOf (s : String) : Option (List Cap) :=
   if s = "none" then none else if s = "-" then some [] else some ((s.splitOn ",").map natD)
@@ -22,39 +30,87 @@ def showRes : Res → String
   | .success => "ok"
   | .failure k => if k = "ToolRaised" then "failx" else "fail"   -- failx: the body ran and raised
 
-def showLog (s : St) : String := showList (s.events.map fun t => toString t.body)
+def showLog (s : St) : String := showList (s.events.map fun e => toString e.tool.body)
+
+def kindOf : Res → String
+  | .success => "success"
+  | .failure k => k
+
+def slotOps (d : DSt) (slot : Nat) : List RegOp :=
+  (d.slots.filter (fun p => p.1 == slot)).flatMap (·.2)
+
+/-- "@1,2" → operations of slots 1 and 2, in that order -/
+def slotSpec (d : DSt) (spec : String) : List RegOp :=
+  ((spec.drop 1).toString.splitOn ",").flatMap fun x => slotOps d (natD x)
+
+def parseRegOp : List String → Option RegOp
+  | ["reg", n, body, req, caps, r] => some (.register n ⟨natD body, capsOf req, capsOf caps, boolOf r⟩)
+  | ["reg", n, body, req, caps, r, _style] => some (.register n ⟨natD body, capsOf req, capsOf caps, boolOf r⟩)
+  | ["unreg", n] => some (.unregister n)
+  | _ => none
+
+/-- one element of a round: `^slot`, `name` or `name@s1@s2` -/
+def parseRound (d : DSt) (r : String) : Round :=
+  if r = "-" then {} else
+    (r.splitOn ",").foldl (fun (acc : Round) e =>
+      if e.startsWith "^" then { acc with before := acc.before ++ slotOps d (natD (e.drop 1).toString) }
+      else match e.splitOn "@" with
+        | [] => acc
+        | n :: ss => { acc with calls := acc.calls ++ [(n, ss.flatMap fun x => slotOps d (natD x))] }) {}
+
+def metLine (d : DSt) (mode callee a recorded : String) (ops : List RegOp) : DSt × String :=
+  let g := Operon.Gen.MitoCaps.guards
+  let c : Callee := if callee = "notname" then .notName else if callee = "notcall" then .notCall
+    else .name (callee.drop 5).toString
+  let evalArgs : Bool := match c with
+    | .name n => Operon.Gen.MitoCaps.safeNames.contains n
+    | _ => false
+  let p : Pre := match mode with
+    | "long" => .tooLong | "ros" => .rosLatched | "forced-oxid" => .oxidative | "forced-other" => .otherPathway evalArgs
+    | _ => if recorded = "oxid" then .oxidative else .otherPathway evalArgs   -- auto: pathway recorded from the real run
+  let argsOk : Bool := if a.startsWith "n:" then Operon.Gen.MitoCaps.safeCall1.contains (a.drop 2).toString else boolOf a
+  let (s', r) := metabolize g d.st p c argsOk ops
+  let infl := if s'.reg != d.st.reg then " inflight" else ""
+  ({ d with st := s' }, s!"{showRes r} {showLog s'} ## met-{kindOf r}{infl}")
+
+def callLine (d : DSt) (n : String) (ops : List RegOp) : DSt × String :=
+  let g := Operon.Gen.MitoCaps.guards
+  let (s', r) := executeToolCall g d.st n ops
+  let infl := if s'.reg != d.st.reg then " inflight" else ""
+  ({ d with st := s' }, s!"{showRes r} {showLog s'} ## call-{kindOf r}{infl}")
 
 def step (d : DSt) (toks : List String) : DSt × String :=
   let g := Operon.Gen.MitoCaps.guards
   match toks with
-  | ["cfg", al] => ({ allowed := capsOf al, st := {} }, "ok")
-  | ["cfg", al, _container] => ({ allowed := capsOf al, st := {} }, "ok")   -- container type of the ceiling: irrelevant
-  | ["reg", n, body, req, caps, r] =>
-    ({ d with st := { d.st with reg := d.st.reg.set n ⟨natD body, capsOf req, capsOf caps, boolOf r⟩ } }, "ok")
-  | ["reg", n, body, req, caps, r, _style] =>      -- style of the Python tool object: irrelevant to the model
-    ({ d with st := { d.st with reg := d.st.reg.set n ⟨natD body, capsOf req, capsOf caps, boolOf r⟩ } }, "ok")
+  | ["cfg", al] => ({ st := init (capsOf al) }, "ok")
+  | ["cfg", al, _container] => ({ st := init (capsOf al) }, "ok")   -- container type of the ceiling: irrelevant
+  | ["setal", al] => ({ d with st := { d.st with allowed := capsOf al } }, "ok")
+  | ["setal", al, _container] => ({ d with st := { d.st with allowed := capsOf al } }, "ok")
+  | "reg" :: rest =>
+    match parseRegOp ("reg" :: rest) with
+    | some op => ({ d with st := { d.st with reg := d.st.reg.apply op } }, "ok")
+    | none => (d, "bad-op")
   | ["unreg", n] => ({ d with st := { d.st with reg := d.st.reg.erase n } }, "ok")
+  | ["redecl", n, req, caps] =>
+    ({ d with st := { d.st with reg := d.st.reg.redeclare n (capsOf req) (capsOf caps) } }, "ok")
   | ["schemas"] => (d, "ok")                       -- export_tool_schemas / list_tools: must not change anything
-  | ["met", mode, callee, a, recorded] =>
-    let p : Pre := match mode with
-      | "long" => .tooLong | "ros" => .rosLatched | "forced-oxid" => .oxidative | "forced-other" => .otherPathway
-      | _ => if recorded = "oxid" then .oxidative else .otherPathway     -- auto: pathway recorded from the real run
-    let c : Callee := if callee = "notname" then .notName else if callee = "notcall" then .notCall
-      else .name (callee.drop 5).toString
-    let (s', r) := metabolize g d.allowed d.st p c (boolOf a)
-    ({ d with st := s' }, s!"{showRes r} {showLog s'}")
-  | ["call", n] =>
-    let (s', r) := executeToolCall g d.allowed d.st n
-    ({ d with st := s' }, s!"{showRes r} {showLog s'}")
+  | "arm" :: slot :: rest =>
+    match parseRegOp rest with
+    | some op => ({ d with slots := d.slots ++ [(natD slot, [op])] }, "ok")
+    | none => (d, "bad-op")
+  | ["met", mode, callee, a, recorded] => metLine d mode callee a recorded []
+  | ["met", mode, callee, a, recorded, spec] => metLine d mode callee a recorded (slotSpec d spec)
+  | ["call", n] => callLine d n []
+  | ["call", n, spec] => callLine d n (slotSpec d spec)
   | ["loop", k, auto, _idmode, rounds] => step d ["loop", k, auto, rounds]
   | ["loop", k, auto, rounds] =>
-    let rs : List (List String) := if rounds = "." then [] else
-      (rounds.splitOn ";").map fun r => if r = "-" then [] else r.splitOn ","
-    if d.st.reg.isEmpty || !boolOf auto then (d, s!"[] {showLog d.st}")
+    let rs : List Round := if rounds = "." then [] else (rounds.splitOn ";").map (parseRound d)
+    if d.st.reg.isEmpty then (d, s!"[] {showLog d.st} ## loop-noschemas")
     else
-      let (s', rss) := toolLoop g d.allowed (natD k) d.st rs
+      let (s', rss) := toolLoop g (natD k) (boolOf auto) d.st rs
+      let infl := if s'.reg != d.st.reg then " inflight" else ""
       ({ d with st := s' },
-        s!"{showList (rss.map fun r => showList (r.map showRes))} {showLog s'}")
+        s!"{showList (rss.map fun r => showList (r.map showRes))} {showLog s'} ## loop{infl}")
   | _ => (d, "bad-op")
 
 def main : IO Unit := runDriver ({} : DSt) step
